@@ -18,9 +18,9 @@ RULE = ('case = one call of type_infer: skeletons obtained by erasing generated 
 ASSUMPTIONS = ['the declared type of a constant is read from theory.thy term_sig / context defs (data tables)',
                'exact recovery is demanded only when inference succeeds; failure must be TypeInferenceException '
                '(or TheoryException for unknown constants)']
-REQUIRED = {'quick': {'gen_deep_chain_terms': 300, 'calls_observed': 8000, 'returns_judged': 3000, 'gen_erasures': 2500, 'gen_illtyped': 300,
+REQUIRED = {'quick': {'ctx_hist_outer_inferences': 300, 'ctx_hist_inner_failed': 100, 'gen_deep_chain_terms': 300, 'calls_observed': 8000, 'returns_judged': 3000, 'gen_erasures': 2500, 'gen_illtyped': 300,
                       'lib_calls_observed': 1500, 'exact_recoveries': 800, 'hist_inferences': 200},
-            'thorough': {'gen_deep_chain_terms': 6000, 'calls_observed': 150000, 'returns_judged': 60000, 'gen_erasures': 50000, 'gen_illtyped': 6000,
+            'thorough': {'ctx_hist_outer_inferences': 6000, 'ctx_hist_inner_failed': 2000, 'gen_deep_chain_terms': 6000, 'calls_observed': 150000, 'returns_judged': 60000, 'gen_erasures': 50000, 'gen_illtyped': 6000,
                          'lib_calls_observed': 30000, 'exact_recoveries': 15000, 'hist_inferences': 5000}}
 SHARD_TIMEOUT = {'quick': 1200, 'thorough': 7200}
 NONE = ('none',)
@@ -409,6 +409,59 @@ def run_hist(ctx, spec):
         theory.thy = base
 
 
+def run_ctx_hist(ctx, count):
+    """W-HIST: what inference knows about a VARIABLE must come from the context in force now.  An inference fails
+    inside a nested context (fresh_context) that declares the same names at other types - as happens when the
+    editor rejects an item - and the exception is caught outside; afterwards the enclosing context must be in
+    force again: erasures of terms over its declarations must be recovered exactly."""
+    from logic import context
+    from syntax import infertype
+    rng = ctx.rng
+    B, NAT = S.BOOL, S.NAT
+    tpool = [NAT, B, S.REAL, ('tv', 'a'), S.fun(NAT, NAT), ('tc', 'set', (NAT,))]
+    Mon.origin = 'ctx-hist'
+    for k in range(count):
+        T1 = rng.choice(tpool)
+        T2 = rng.choice([T for T in tpool if T != T1])
+        outer = {'x': T1, 'y': T1, 'P': S.fun(T1, B)}
+        inner = {'x': T2, 'y': T2, 'P': S.fun(T2, B)}
+        context.set_context(None, vars={n: S.to_repo_type(T) for n, T in outer.items()})
+        how = rng.choice(['ill-typed', 'occurs-check', 'no-failure'])
+        try:
+            with context.fresh_context(vars={n: S.to_repo_type(T) for n, T in inner.items()}):
+                if how == 'ill-typed':
+                    bad = S.mk_comb(('const', 'conj', NONE), ('comb', ('var', 'P', NONE), ('var', 'x', NONE)), ('var', 'x', NONE)) \
+                        if T2 != B else ('comb', ('var', 'x', NONE), ('var', 'y', NONE))
+                elif how == 'occurs-check':
+                    bad = ('comb', ('var', 'x', NONE), ('var', 'x', NONE))
+                else:
+                    bad = S.mk_comb(('const', 'equals', NONE), ('var', 'x', NONE), ('var', 'y', NONE))
+                Mon.expect, Mon.level = None, None
+                infertype.type_infer(skeleton_term(bad))
+                ctx.count('ctx_hist_inner_succeeded')
+        except Exception:
+            ctx.count('ctx_hist_inner_failed')
+        xv, yv, Pv = ('var', 'x', T1), ('var', 'y', T1), ('var', 'P', S.fun(T1, B))
+        s_ = rng.choice([S.mk_comb(('const', 'equals', S.funs(T1, T1, B)), xv, yv),
+                         S.mk_comb(('const', 'conj', S.funs(B, B, B)), ('comb', Pv, xv), S.mk_comb(('const', 'equals', S.funs(T1, T1, B)), xv, yv)),
+                         ('comb', Pv, yv)])
+        sk = erase(s_, 0, rng)
+        Mon.expect, Mon.level = s_, 0
+        ctx.count('ctx_hist_outer_inferences')
+        try:
+            infertype.type_infer(skeleton_term(sk))
+        except infertype.TypeInferenceException:
+            ctx.violation('infer:fails-on-a-term-over-the-declared-variables-after-a-failure-in-a-nested-context',
+                          'after %s inside fresh_context(%s), inference of %s in the enclosing context (%s) raised' % (
+                              how, {n: S.ty_str(T) for n, T in inner.items()}, S.tm_str(s_, True), {n: S.ty_str(T) for n, T in outer.items()}),
+                          {'skeleton': S.jsonable(sk), 'origin': 'ctx-hist', 'level': 0, 'vars': {n: S.jsonable(T) for n, T in outer.items()}})
+        except Exception as e:
+            ctx.count('ctx_hist_other_exception:' + type(e).__name__)
+        finally:
+            Mon.expect, Mon.level = None, None
+        ctx.case(('ctx-hist', k, how, S.alpha(s_)), nontrivial=True)
+
+
 def run_lib(ctx, spec):
     """library statements are re-parsed from their printed form: every parse goes through type_infer"""
     from kernel import theory
@@ -462,5 +515,6 @@ def run_shard(ctx, spec):
         run_gen(ctx, spec)
     elif spec['kind'] == 'hist':
         run_hist(ctx, spec)
+        run_ctx_hist(ctx, spec['count'] * 3)
     else:
         run_lib(ctx, spec)
